@@ -1,13 +1,22 @@
 #include <occa/internal/core/device.hpp>
 #include <occa/internal/core/streamTag.hpp>
+#ifdef LIBOCCA_OCCA_VERIF
+#include <occa/internal/utils/verif.hpp>
+#endif
 
 namespace occa {
   modeStreamTag_t::modeStreamTag_t(modeDevice_t *modeDevice_) :
     modeDevice(modeDevice_) {
+#ifdef LIBOCCA_OCCA_VERIF
+    verif::created(verif::kStreamTag, this);
+#endif
     modeDevice->addStreamTagRef(this);
   }
 
   modeStreamTag_t::~modeStreamTag_t() {
+#ifdef LIBOCCA_OCCA_VERIF
+    verif::destroyed(verif::kStreamTag, this);
+#endif
     // NULL all wrappers
     while (streamTagRing.head) {
       streamTag *mem = (streamTag*) streamTagRing.head;
